@@ -239,23 +239,39 @@ def eval_pandas(case):
             not (fam in ("datetime", "date") and P.datetime_precondition(elems)):
         ev.add(f"rejected-all-convertible:{tag}", {"elements": [V.show(v) for v in elems], "phys": str(obj.dtype),
                                                    "reported": [[V.show(l), V.show(v)] for l, v in pairs]})
-    # pandas may re-box one null kind into another (Index.to_series, reset_index), which changes what
-    # coerce_value says about it: when the nulls of one container have different verdicts, nulls are left out
-    null_verdicts = {(c["own"] in (P.FAIL, P.NULL_FAIL)) or (c["own"] == P.GREY and not c["cv"])
-                     for c, v in zip(cls, elems) if V.is_null(v)}
-    skip_nulls = len(null_verdicts) > 1
-    if skip_nulls:
-        ev.labels.append("pd:mixed-null-verdicts")
-        pairs = [(l, v) for l, v in pairs if not V.is_null(v)]
+    # ---- nulls are compared by count (all null kinds share one key; pandas may re-box one kind into another):
+    #      null_fail nulls must be listed, null_ok nulls must not, grey nulls (convention dependent) may be
+    nulls = [c for c, v in zip(cls, elems) if V.is_null(v)]
+    n_must = sum(1 for c in nulls if c["own"] in (P.NULL_FAIL, P.FAIL))
+    n_may = sum(1 for c in nulls if c["own"] == P.GREY)
+    n_rep = sum(1 for _, v in pairs if V.is_null(v))
+    detail = {"elements": [V.show(v) for v in elems], "labels": [V.show(l) for l in labels],
+              "own": [c["own"] for c in cls], "coerce_value_ok": [c["cv"] for c in cls],
+              "reported": [[V.show(l), V.show(v)] for l, v in pairs]}
+    lenient = False
+    if route == "index" and nulls:
+        # Index.to_series() re-infers object labels (None may come back as NaT): if the verdict depends on the
+        # null kind for this dtype, the nulls of an Index are not judged
+        lenient = len({P.own(spec, nv)[0] for nv in (None, float("nan"), pd.NA, pd.NaT)}) > 1
+        if lenient:
+            ev.labels.append("pd:index-nulls-not-judged")
+    if not lenient:
+        if n_rep > n_must + n_may:
+            ev.add(f"null-listed-as-failure-case:{fam}", detail)
+        elif n_rep < n_must:
+            ev.add(f"null-missing-from-failure-cases:{fam}", detail)
+
+    # ---- non-null elements: multiset of (label, value)
+    pairs = [(l, v) for l, v in pairs if not V.is_null(v)]
     got = Counter((V.label_key(l), V.key(v)) for l, v in pairs)
     got_vals = Counter(V.key(v) for _, v in pairs)
     exp_pairs = Counter()
     why = {}
     for i, c in enumerate(cls):
-        o = c["own"]
-        if skip_nulls and V.is_null(elems[i]):
+        if V.is_null(elems[i]):
             continue
-        listed = (o in (P.FAIL, P.NULL_FAIL)) or (o == P.GREY and not c["cv"])
+        o = c["own"]
+        listed = (o == P.FAIL) or (o == P.GREY and not c["cv"])
         if listed:
             exp_pairs[(V.label_key(labels[i]), V.key(elems[i]))] += 1
         why.setdefault(V.key(elems[i]), set()).add(o)
@@ -267,24 +283,17 @@ def eval_pandas(case):
         return ev
     extra = got_vals - exp_vals
     missing = exp_vals - got_vals
-    detail = {"elements": [V.show(v) for v in elems], "labels": [V.show(l) for l in labels],
-              "own": [c["own"] for c in cls], "coerce_value_ok": [c["cv"] for c in cls],
-              "reported": [[V.show(l), V.show(v)] for l, v in pairs]}
     for k in extra:
         cl = why.get(k)
         if cl is None:
             ev.add(f"failure-case-not-an-input-element:{fam}", detail)
-        elif P.NULL_OK in cl:
-            ev.add(f"null-listed-as-failure-case:{fam}", detail)
         elif P.EXACT in cl:
             ev.add(f"convertible-listed-as-failure-case:{fam}", detail)
         else:
             ev.add(f"failure-case-extra:{fam}", detail)
     for k in missing:
         cl = why.get(k, set())
-        if P.NULL_FAIL in cl:
-            ev.add(f"null-missing-from-failure-cases:{fam}", detail)
-        elif P.FAIL in cl:
+        if P.FAIL in cl:
             ev.add(f"unconvertible-missing-from-failure-cases:{tag}", detail)
         else:
             ev.add(f"failure-case-missing-vs-coerce_value:{fam}", detail)
@@ -714,9 +723,16 @@ def _k_extint_fraction(family, case, disc):
 
 @known.finding("C10/date-all-null-yields-datetime64")
 def _k_date_all_null(family, case, disc):
-    return (family == "pandas" and case["dtype"]["k"] == "date"
-            and disc.kind in ("coerced-fails-own-check:date", "wrong-channel:SchemaError:WRONG_DATATYPE:date")
-            and all(V.is_null(v) or v == "" for v in _elems(case)))
+    # trigger: Date dtype and every element converts to NaT; symptom: datetime64[ns] result failing Date.check
+    if family != "pandas" or case["dtype"]["k"] != "date":
+        return False
+    d = disc.detail or {}
+    if disc.kind == "coerced-fails-own-check:date":
+        return str(d.get("out_dtype")) == "datetime64[ns]" and all("NaT" in str(x) for x in d.get("out", ["?"]))
+    if disc.kind == "wrong-channel:SchemaError:WRONG_DATATYPE:date":
+        rows = [l for l in str(d.get("msg", "")).splitlines() if l and l.split()[0].isdigit()]
+        return bool(rows) and all(l.rstrip().endswith("NaT") for l in rows)
+    return False
 
 
 @known.finding("C10/date-coerce-index-unsupported")
